@@ -592,20 +592,19 @@ class BaseProject(object, metaclass=ABCMeta):
                                 # 3-1-1. move ready_component
                                 pre_workplace = component.placed_workplace
 
-                                # 3-1-1-1. remove
-                                if pre_workplace is None:
-                                    for child_c in component.child_component_list:
-                                        wp = child_c.placed_workplace
-                                        if wp is not None:
-                                            for c_wp in wp.placed_component_list:
-                                                if task.target_component.ID in [
-                                                    c.ID
-                                                    for c in c_wp.parent_component_list
-                                                ]:
-                                                    wp.remove_placed_component(c_wp)
-
-                                elif pre_workplace is not None:
-                                    pre_workplace.remove_placed_component(component)
+                                # 3-1-1-1. remove this component and all of its descendants
+                                # from the workplaces where each of them is placed now
+                                moving_component_list = [component]
+                                for c in moving_component_list:
+                                    for child_c in c.child_component_list:
+                                        if not any(
+                                            child_c is m for m in moving_component_list
+                                        ):
+                                            moving_component_list.append(child_c)
+                                for c in moving_component_list:
+                                    wp = c.placed_workplace
+                                    if wp is not None and c in wp.placed_component_list:
+                                        wp.placed_component_list.remove(c)
 
                                 component.set_placed_workplace(None)
 
